@@ -17,14 +17,14 @@ import (
 // other such subtrees).  The loop must then read the list's length on every iteration: a `range`, or a bound read
 // before the loop, stops at the original length and drops them from the line's height.
 func c11GrowingLists(c *core.Check) {
-	r := c.Rule("R13", "a loop over a local list whose address is passed, inside the loop, to a callee that appends through it re-reads the list's length on every iteration (no range snapshot, no bound hoisted out of the loop): the elements discovered during the loop are processed too", 1)
+	r := c.Rule("R13", "a loop over a local list whose address is passed, inside the loop, to a callee that appends through it re-reads the list's length on every iteration (no range snapshot, no bound hoisted out of the loop): the elements discovered during the loop are processed too", 2)
 	growingListsRule(c, r, false)
 }
 
 // c01GrowingPlaceholders (R22): the same rule for the lists of absolute and fixed placeholders: a placeholder that
 // is appended while the list is laid out and never visited keeps its nil sizes, and the first read of them panics.
 func c01GrowingPlaceholders(c *core.Check) {
-	r := c.Rule("R22", "every placeholder is laid out: a loop that lays out a local list of absolute/fixed placeholders and passes the list's address to the layout (which appends the fixed boxes it meets) re-reads the list's length on every iteration; a placeholder skipped by a range snapshot keeps nil sizes, which the background layout dereferences", 2)
+	r := c.Rule("R22", "every placeholder is laid out: a loop that lays out a local list of absolute/fixed placeholders and passes the list's address to the layout (which appends the fixed boxes it meets) re-reads the list's length on every iteration; a placeholder skipped by a range snapshot keeps nil sizes, which the background layout dereferences", 3)
 	growingListsRule(c, r, true)
 }
 
